@@ -4,6 +4,7 @@ import (
 	"fmt"
 	"math"
 	"math/rand"
+	"strings"
 	"time"
 
 	"github.com/uhn/ggql/pkg/ggql"
@@ -541,8 +542,181 @@ func runC04(c *run.Ctx) {
 			}
 		}
 	}
-	c.MinNontriv = total / 3
+	hist := c04Histories(c, s, sdl, g, types)
+	c.MinNontriv = (total + hist) / 3
 	c.Set("requests", total)
+}
+
+// c04Histories: argument literals with variables one or more levels down inside list and object literals; the document
+// is parsed ONCE and resolved several times with different variable values (valid, out of range, valid again). Each
+// call is judged on its own: what the resolver receives must be the coercion of the literal with THIS call's variable
+// values substituted (or no invocation plus an error when that cannot be coerced).
+func c04Histories(c *run.Ctx, s *model.Schema, sdl string, g *model.Graph, types []*model.TypeRef) int {
+	idx := map[string]int{}
+	for i, t := range types {
+		idx[t.String()] = i
+	}
+	obj := func(kv ...interface{}) *model.ObjLit {
+		o := model.NewObjLit()
+		for i := 0; i+1 < len(kv); i += 2 {
+			o.Set(kv[i].(string), kv[i+1])
+		}
+		return o
+	}
+	V := func(n string) model.VarRef { return model.VarRef(n) }
+	nnInt, fl, str, id, in2 := model.NonNullOf(model.Named("Int")), model.NonNullOf(model.Named("Float")), model.Named("String"), model.Named("ID"), model.Named("In2")
+	intN := model.Named("Int")
+	type tpl struct {
+		typ  string
+		vars []*model.VarDef
+		arg  interface{}
+	}
+	tpls := []tpl{
+		{"[In]", []*model.VarDef{{Name: "m", Type: nnInt}}, []interface{}{obj("req", V("m"), "opt", "k")}},
+		{"[In]", []*model.VarDef{{Name: "m", Type: nnInt}, {Name: "o", Type: str}}, []interface{}{obj("req", int64(1), "opt", V("o")), obj("req", V("m"), "list", []interface{}{V("m"), int64(4)})}},
+		{"[[In]]", []*model.VarDef{{Name: "m", Type: nnInt}, {Name: "w", Type: in2}}, []interface{}{[]interface{}{obj("req", V("m"), "nested", V("w"))}, []interface{}{}}},
+		{"In", []*model.VarDef{{Name: "x", Type: fl}, {Name: "z", Type: id}}, obj("req", int64(2), "nested", obj("x", V("x"), "z", V("z"), "y", []interface{}{model.Sym("C")}))},
+		{"In!", []*model.VarDef{{Name: "m", Type: nnInt}, {Name: "n", Type: intN}}, obj("req", V("m"), "list", []interface{}{int64(1), V("m")}, "def", V("n"))},
+		{"[[Int]]", []*model.VarDef{{Name: "m", Type: nnInt}, {Name: "n", Type: intN}}, []interface{}{[]interface{}{V("m"), int64(1)}, []interface{}{V("n")}, []interface{}{int64(2)}}},
+		{"[[Int!]!]!", []*model.VarDef{{Name: "m", Type: nnInt}}, []interface{}{[]interface{}{int64(7), V("m")}, []interface{}{int64(2)}}},
+		{"[[Float]]", []*model.VarDef{{Name: "x", Type: fl}}, []interface{}{[]interface{}{0.25}, []interface{}{V("x"), int64(3)}}},
+		{"[[String]]", []*model.VarDef{{Name: "o", Type: str}}, []interface{}{[]interface{}{"lit", V("o")}}},
+		{"[[ID]]", []*model.VarDef{{Name: "z", Type: id}}, []interface{}{[]interface{}{V("z")}, []interface{}{"i2"}}},
+		{"[In2]", []*model.VarDef{{Name: "x", Type: fl}}, []interface{}{obj("x", 1.5), obj("x", V("x"), "y", []interface{}{model.Sym("A"), model.Sym("B")})}},
+		// a literal that can never be coerced: every resolve must refuse it, not only the first
+		{"[[Int]]", []*model.VarDef{{Name: "m", Type: nnInt}}, []interface{}{[]interface{}{int64(1), "two"}, []interface{}{V("m")}}},
+		{"[In]", []*model.VarDef{{Name: "m", Type: nnInt}}, []interface{}{obj("req", V("m")), obj("opt", "no req")}},
+	}
+	pool := map[string][]interface{}{
+		"m": {float64(1), float64(-7), float64(2147483647), float64(2147483648), 3.5, float64(12), int32(5), int64(6)},
+		"n": {nil, float64(9), float64(-2147483649), float64(0)},
+		"x": {0.5, float64(2), 1e39, -0.125, 1e300},
+		"o": {"a", "b", nil, ""},
+		"z": {"id-1", "id-2", nil},
+		"w": {map[string]interface{}{"x": 1.5}, map[string]interface{}{"x": 2.5, "z": "zz"}, nil, map[string]interface{}{"x": 1e39}, map[string]interface{}{"z": "no x"}},
+	}
+	n, steps := 0, 0
+	reps := c.N(6, 200)
+	for _, bk := range []string{"iface", "any"} {
+		h, err := back.Build(bk, s, sdl, g)
+		if err != nil {
+			return 0
+		}
+		for ti, tp := range tpls {
+			t := types[idx[tp.typ]]
+			fname := fmt.Sprintf("p%d", idx[tp.typ])
+			for rep := 0; rep < reps; rep++ {
+				n++
+				r := c.Rand(500000 + ti*1000 + rep*2 + len(bk))
+				doc := &model.Doc{Ops: []*model.Op{{Kind: "query", Name: "Q", Vars: tp.vars, Sels: []model.Sel{&model.Field{Name: fname, Args: []model.Arg{{Name: "a", Value: tp.arg}}}}}}}
+				text := doc.Print(model.LayoutN(n))
+				exe, perr := h.Root.ParseExecutableString(text)
+				if perr != nil {
+					c.Violation("c04-history", map[string]interface{}{"backend": bk, "document": text, "diag": "valid document rejected: " + perr.Error()})
+					break
+				}
+				var trace []string
+				for step := 0; step < 3+r.Intn(3); step++ {
+					vars := map[string]interface{}{}
+					for _, vd := range tp.vars {
+						vs := pool[vd.Name]
+						vars[vd.Name] = vs[r.Intn(len(vs))]
+					}
+					// expectation for THIS call: variables are coerced by their declared type, then the literal as a whole
+					var subst func(v interface{}) (interface{}, error)
+					subst = func(v interface{}) (interface{}, error) {
+						switch tv := v.(type) {
+						case model.VarRef:
+							for _, vd := range tp.vars {
+								if vd.Name == string(tv) {
+									cv, cerr := ref.CoerceIn(s, vd.Type, vars[vd.Name])
+									if cerr != nil {
+										return nil, cerr
+									}
+									return ref.Coerced{V: cv}, nil
+								}
+							}
+						case []interface{}:
+							o := make([]interface{}, len(tv))
+							for i, e := range tv {
+								var e2 error
+								if o[i], e2 = subst(e); e2 != nil {
+									return nil, e2
+								}
+							}
+							return o, nil
+						case *model.ObjLit:
+							o := model.NewObjLit()
+							for _, k := range tv.Keys {
+								sv, e2 := subst(tv.Vals[k])
+								if e2 != nil {
+									return nil, e2
+								}
+								o.Set(k, sv)
+							}
+							return o, nil
+						}
+						return v, nil
+					}
+					var expVal interface{}
+					sv, expErr := subst(tp.arg)
+					if expErr == nil {
+						expVal, expErr = ref.CoerceIn(s, t, sv)
+					}
+					out := Do(h, Request{Exe: exe, OpName: "Q", Vars: vars}, nil)
+					steps++
+					trace = append(trace, fmt.Sprintf("%#v", vars))
+					var call *back.Call
+					for i := range out.Calls {
+						if out.Calls[i].Key.Field == fname {
+							call = &out.Calls[i]
+						}
+					}
+					diag := ""
+					switch {
+					case out.Panic != nil:
+						diag = "panic: " + fmt.Sprint(out.Panic)
+					case call == nil && len(out.ErrPaths) == 0:
+						diag = "resolver not invoked and no error reported"
+					case call == nil:
+						if expErr == nil {
+							c.Count("rejected_although_coercible(stricter_than_spec)", 1)
+						} else {
+							c.Count("uncoercible_rejected", 1)
+						}
+					case expErr != nil:
+						diag = "resolver invoked although the value cannot be coerced: " + expErr.Error()
+					default:
+						got := call.Raw["a"]
+						if d := c04Conforms(s, t, got, "a"); d != "" {
+							diag = "received argument does not conform: " + d
+						} else if !ref.Equal(c04Canon(got), expVal) {
+							diag = "received argument differs from what the client wrote in this call"
+						} else {
+							c.Count("resolver_invocations_checked", 1)
+						}
+					}
+					if diag != "" {
+						e := ""
+						if expErr != nil {
+							e = expErr.Error()
+						}
+						c.Violation("c04-history", map[string]interface{}{"backend": bk, "type": tp.typ, "document": text, "history_vars_parse_once": trace, "diag": diag,
+							"expected_value": ref.Render(expVal), "expected_error": e, "observed": out.Describe(), "received_args": fmt.Sprintf("%#v", lastArgs(out))})
+						break
+					}
+				}
+				c.Eval("hist|"+text+"|"+strings.Join(trace, ";")+bk, true)
+				c.Bucket("form", "parse-once-history")
+				if n%40 == 0 {
+					c.Sample(map[string]interface{}{"type": tp.typ, "document": text, "history_vars_parse_once": trace, "backend": bk})
+				}
+			}
+		}
+	}
+	c.Set("histories_parse_once", n)
+	c.Count("history_resolve_calls", steps)
+	return n
 }
 
 // c04Lenient recomputes the expectation with ref.Lenient on, from the request itself
